@@ -278,10 +278,21 @@ def signal_conformance(tier):
 
 def run(tier):
     engine.install_pool_bc_all()
-    budget = {"preempt": 1, "interrupt": 1, "random": 1} if tier == "quick" else {"preempt": 2, "interrupt": 1, "random": 1}
-    ex = [("interrupt at every point with a call in flight", FACTORY, cfgs(tier), budget),
-          ("interrupt + a call failing after it + children becoming ready, random queue (<= 2 non-default draws)", FACTORY,
-           fail_release_cfgs(tier), {"preempt": 0, "interrupt": 1, "random": 2, "yield": 2} if tier == "quick" else {"preempt": 1, "interrupt": 1, "random": 2, "yield": 0})]
+    if tier == "quick":
+        ex = [("interrupt at every point with a call in flight", FACTORY, cfgs(tier), {"preempt": 1, "interrupt": 1, "random": 1}),
+              ("interrupt + a call failing after it + children becoming ready, random queue (<= 2 non-default draws)", FACTORY,
+               fail_release_cfgs(tier), {"preempt": 0, "interrupt": 1, "random": 2, "yield": 2})]
+    else:
+        # budgets multiply: the wide family with <= 1 preemption, the three-call family with <= 2
+        allc = cfgs(tier)
+        wide = [c for c in allc if c["n"] == 3 or c["W"] <= 2]
+        small = [c for c in allc if c["n"] == 3 and c["W"] == 2 and c["sched"] == "default" and not c.get("fail")]
+        ex = [("interrupt + a call failing after it + children becoming ready, random queue (<= 2 non-default draws), no preemption", FACTORY,
+               fail_release_cfgs(tier), {"preempt": 0, "interrupt": 1, "random": 2, "yield": 2}),
+              ("interrupt at every point with a call in flight: all shapes, <= 1 preemption, <= 1 non-default choice at blocking points", FACTORY, wide, {"preempt": 1, "interrupt": 1, "random": 1, "yield": 1}),
+              ("interrupt at every point with a call in flight: three-call shapes, 2 workers, <= 2 preemptions", FACTORY, small, {"preempt": 2, "interrupt": 1, "random": 1, "yield": 0}),
+              ("interrupt + a call failing after it + children becoming ready, random queue, <= 1 preemption, <= 1 non-default draw", FACTORY,
+               fail_release_cfgs(tier), {"preempt": 1, "interrupt": 1, "random": 1, "yield": 0})]
     sv, scov = signal_conformance(tier)
     res = e1prop.run(PROP, ex, extra_cov=scov, extra_viol=sv)
     return res
